@@ -1,0 +1,63 @@
+//go:build verif
+
+package rtmr
+
+// Contracts for /verif (govc).  No code here.
+// Inside before(rec, E) / after(rec, E) the callee's parameter names shadow
+// the enclosing function's; the latter stay reachable as outer_<name>.
+
+//@ func ExtendDigestClient(client, rtmrIndex, digest) (err)
+//@   ensures[reject] rtmrIndex < 0 || rtmrIndex > 3 || len(digest) != 48 ==> err != nil && !extend[0].happened
+//@   ensures[one-extend] 0 <= rtmrIndex && rtmrIndex <= 3 && len(digest) == 48 ==> extend[0].happened && !extend[1].happened
+//@ |       && before(extend[0], rtmr == rtmrIndex && digest == outer_digest && client == outer_client) && err == after(extend[0], err)
+
+//@ func ExtendEventLogClient(client, rtmrIndex, hashAlgo, eventLog) (err)
+//@   inlines ExtendDigestClient
+//@   ensures[reject] hashAlgo != 6 || len(eventLog) == 0 || rtmrIndex < 0 || rtmrIndex > 3 ==> err != nil && !extend[0].happened
+//@   ensures[one-extend] hashAlgo == 6 && len(eventLog) > 0 && 0 <= rtmrIndex && rtmrIndex <= 3 ==> extend[0].happened && !extend[1].happened
+//@ |       && before(extend[0], rtmr == rtmrIndex && len(digest) == 48 && seq(digest) == SHA384(seq(eventLog)) && client == outer_client)
+//@ |       && err == after(extend[0], err)
+
+//@ func ExtendEventLog(rtmrIndex, hashAlgo, eventLog) (err)
+//@   inlines ExtendEventLogClient, ExtendDigestClient
+//@   ensures[reject] hashAlgo != 6 || len(eventLog) == 0 || rtmrIndex < 0 || rtmrIndex > 3 ==> err != nil && !extend[0].happened
+//@   ensures[at-most-one] !extend[1].happened
+
+//@ func ExtendDigest(rtmrIndex, digest) (err)
+//@   inlines ExtendDigestClient
+//@   ensures[reject] rtmrIndex < 0 || rtmrIndex > 3 || len(digest) != 48 ==> err != nil && !extend[0].happened
+//@   ensures[at-most-one] !extend[1].happened
+
+// ---- CCEL replay behind both gates (C18) ----
+
+// nil-safe reading of the RTMR list (what the generated getters do)
+//@ define rtmrsOf(q) = ite(q != nil && q.TdQuoteBody != nil, q.TdQuoteBody.Rtmrs, nil)
+
+//@ define bankOf(bank, rtmrs) = len(bank.RTMRs) == len(rtmrs) && (forall j :: 0 <= j && j < len(rtmrs) ==> bank.RTMRs[j].Index == j && bank.RTMRs[j].Digest == rtmrs[j])
+
+//@ func getRtmrsFromTdQuoteV4(quote) (r, err)
+//@   ensures[bank] err == nil ==> r != nil && bankOf(r, rtmrsOf(quote)) && len(rtmrsOf(quote)) <= 4
+//@   ensures[too-many] len(rtmrsOf(quote)) > 4 ==> err != nil
+//@   loop 0: unroll 5
+
+//@ func GetRtmrsFromTdQuote(quote) (r, err)
+//@   ensures[bank] err == nil ==> typeis(quote, "*tdx.QuoteV4") && r != nil
+//@ |       && bankOf(r, rtmrsOf(as(quote, "*tdx.QuoteV4"))) && len(rtmrsOf(as(quote, "*tdx.QuoteV4"))) <= 4
+
+//@ func TdxDefaultOpts(tdxNonce) (r)
+//@   ensures[report-data] r.Validation != nil && len(r.Validation.TdQuoteBodyOptions.ReportData) == 64
+//@ |       && (forall i :: 0 <= i && i < 64 ==> r.Validation.TdQuoteBodyOptions.ReportData[i] == ite(i < len(tdxNonce), tdxNonce[i], uint8(0)))
+//@ |       && fresh(r.Validation.TdQuoteBodyOptions.ReportData) && r.Verification != nil
+
+//@ func ParseCcelWithTdQuote(ccelBytes, tableBytes, tdxAttestationQuote, opts) (r, err)
+//@   requires opts != nil
+//@   assigns opts.Verification.chain, opts.Verification.collateral, opts.Verification.pckCertExtensions, opts.Verification.Now
+//@   ensures[gates] r != nil ==> verify_tdxquote[0].happened && after(verify_tdxquote[0], err == nil)
+//@ |       && validate_tdxquote[0].happened && after(validate_tdxquote[0], err == nil)
+//@   ensures[order] (validate_tdxquote[0].happened ==> after(verify_tdxquote[0], err == nil))
+//@ |       && (replay[0].happened ==> after(verify_tdxquote[0], err == nil) && after(validate_tdxquote[0], err == nil))
+//@   ensures[same-quote] (verify_tdxquote[0].happened ==> before(verify_tdxquote[0], quote == tdxAttestationQuote && options == outer_opts.Verification))
+//@ |       && (validate_tdxquote[0].happened ==> before(validate_tdxquote[0], quote == tdxAttestationQuote && options == outer_opts.Validation))
+//@   ensures[replay] r != nil || err == nil ==> replay[0].happened && !replay[1].happened && r == after(replay[0], r) && err == after(replay[0], err)
+//@ |       && typeis(tdxAttestationQuote, "*tdx.QuoteV4")
+//@ |       && before(replay[0], bankOf(rtmrBank, rtmrsOf(as(outer_tdxAttestationQuote, "*tdx.QuoteV4"))) && acpiTableFile == outer_tableBytes && rawEventLog == outer_ccelBytes)
